@@ -64,7 +64,8 @@ class UEntry:
 
 
 class UdfImage:
-    def __init__(self, data):
+    def __init__(self, data, vol_sectors=None):
+        self.vol_sectors = vol_sectors    # size the ISO9660 PVD declares (a hybrid image is padded beyond it)
         self.data = data
         self.n = len(data)
         self.anoms = []
@@ -175,8 +176,12 @@ class UdfImage:
     def _anchors(self):
         nsec = self.n // SECTOR
         found = []
-        for loc in (256, nsec - 1, nsec - 257):
-            if loc <= 0 or loc >= nsec:
+        ends = [nsec - 1, nsec - 257]
+        if self.vol_sectors and self.vol_sectors < nsec:
+            nsec_v = self.vol_sectors
+            ends += [nsec_v - 1, nsec_v - 257]
+        for loc in [256] + ends:
+            if loc <= 0 or loc >= nsec or loc in [l for l, _ in found]:
                 continue
             b = self.get(loc * SECTOR, 2)
             if b is not None and struct.unpack('<H', b)[0] == 2:
@@ -191,7 +196,7 @@ class UdfImage:
         self.anchors = dict(found)
         if 256 not in self.anchors:
             self.anom('udf2.60/2.2.3/no-anchor-at-256', 256 * SECTOR)
-        if (nsec - 1) not in self.anchors and (nsec - 257) not in self.anchors:
+        if not any(e in self.anchors for e in ends):
             self.anom('udf2.60/2.2.3/no-anchor-at-end', (nsec - 1) * SECTOR, 'image has %d sectors' % nsec)
         if len(found) < 2:
             self.anom('udf2.60/2.2.3/fewer-than-two-anchors', 256 * SECTOR, 'found at %r' % [l for l, _ in found])
@@ -609,5 +614,7 @@ def decode_path_components(data, img, off):
     return ('/' if absolute else '') + '/'.join(comps)
 
 
-def decode(data):
-    return UdfImage(data).decode()
+def decode(data, vol_sectors=None):
+    if vol_sectors is None and len(data) >= 17 * SECTOR and data[16 * SECTOR + 1:16 * SECTOR + 6] == b'CD001':
+        vol_sectors = struct.unpack_from('<I', data, 16 * SECTOR + 80)[0]
+    return UdfImage(data, vol_sectors).decode()
